@@ -289,6 +289,9 @@ def c09(tier, seed):
     rm = run_engine(dbg, "static", 1000000, seed, {"stage": "matrix"}, build_name="dbg")
     matrix = {k: rm.extra.get(k) for k in ("matrix_size", "rules", "contexts")}
     res.absorb(rm)
+    rf = run_engine(dbg, "static", 1000000, seed, {"stage": "family"}, build_name="dbg")
+    matrix.update({k: rf.extra.get(k) for k in ("family_cases", "family_max_n")})
+    res.absorb(rf)
     if tier == "quick":
         res.absorb(run_engine(dbg, "static", n(4000), seed, {"stage": "random"}, build_name="dbg"))
     else:
@@ -297,7 +300,7 @@ def c09(tier, seed):
     triage(res)
     res.extra.update(matrix)
     return finish("C09", tier, seed, "exploration", res,
-                  "stage matrix (enumerated completely on every run): 84 snippets (77 single-rule violations of the documented static rules: undeclared read/write/placeholder in statement, argument, array, index and condition position, use before `make`, use after the declaring block, use of a callee's local or parameter, unknown function, function of a sibling/inner block, arity +-1 for user functions, global built-ins and methods of literally typed receivers, comot/next outside a loop, return outside a function, duplicate function, duplicate parameter, reserved or built-in name as variable/function/parameter, literally mistyped operand of every operator class, non-boolean condition, non-array index base, non-number index, unknown method of a literal receiver; and 7 valid controls) x 16 nesting contexts (top level, nested blocks, if/else arms, loops, functions, function defined in a loop, loop in a function, function in a function, after return, after comot). Expected verdict per cell from the documented rule (comot/next are valid exactly inside a loop of the same function body, return exactly inside a function). A violating cell must be rejected with an error diagnostic whose category text equals the crate's own category string for that rule; a valid cell must be accepted. Stage random: the same snippets inserted at a random position of a random block of generated valid programs (which themselves must be accepted). Non-trivial = the snippet sits at nesting depth >= 1; distinct = hash of the text",
+                  "stage matrix (enumerated completely on every run): 84 snippets (77 single-rule violations of the documented static rules: undeclared read/write/placeholder in statement, argument, array, index and condition position, use before `make`, use after the declaring block, use of a callee's local or parameter, unknown function, function of a sibling/inner block, arity +-1 for user functions, global built-ins and methods of literally typed receivers, comot/next outside a loop, return outside a function, duplicate function, duplicate parameter, reserved or built-in name as variable/function/parameter, literally mistyped operand of every operator class, non-boolean condition, non-array index base, non-number index, unknown method of a literal receiver; and 7 valid controls) x 16 nesting contexts (top level, nested blocks, if/else arms, loops, functions, function defined in a loop, loop in a function, function in a function, after return, after comot). Expected verdict per cell from the documented rule (comot/next are valid exactly inside a loop of the same function body, return exactly inside a function). A violating cell must be rejected with an error diagnostic whose category text equals the crate's own category string for that rule; a valid cell must be accepted. Stage family (enumerated completely on every run): the same rules at growing size n = 1..14 - a statically known return type reaching its use through a chain of n functions in three definition orders, comot/next at every level of n nested loops, a function body inside n loops, a name used n blocks below or above its declaration, n parameters with arity n, n+1, n-1 and a repeated parameter, n same-block re-declarations with alternating types, a duplicate function after n others, n nested functions - with valid controls of the same shape; the expected verdict does not depend on n. Stage random: the same snippets inserted at a random position of a random block of generated valid programs (which themselves must be accepted). Non-trivial = the snippet sits at nesting depth >= 1; distinct = hash of the text",
                   ["category strings are taken from the crate (SemanticError::X.as_str()), so rewording is not an alarm but a swapped category is",
                    "extra cascaded diagnostics are allowed; only the presence of the expected category is required",
                    "type rules are asserted only on literals and on variables declared by a literal and never reassigned"],
